@@ -357,6 +357,16 @@ func main() {
 		}
 	}
 
+	// ---- quiescent random scenarios against the sequential oracle (oracle.go), both properties
+	for n := 0; n < *rounds*6 && failures == 0; n++ {
+		problem, steps := runOracleScenario(*seed*1000003+int64(n), stats)
+		if problem != "" {
+			fail("oracle", n, steps, problem)
+		} else if len(samples) < 3 && len(steps) > 4 {
+			samples = append(samples, "scenario: "+strings.Join(steps, " | "))
+		}
+	}
+
 	if *which == "C12" {
 		for round := 0; round < *rounds && failures == 0; round++ {
 			vs := redisemu.VerifNewStore("")
